@@ -209,3 +209,25 @@ func VerifHarness_C10_LongQueryCap() {
 	verifAssert(len(res) <= 5, "C10: any query and options give a bounded list")
 	verifReach("returned")
 }
+
+// legacy keyword scorers on commands in which a query word occurs several times
+func VerifHarness_C10_LegacyRepeats() {
+	mk := func(cmd, desc string) Command {
+		c := Command{Command: cmd, Description: desc}
+		vFill(&c)
+		return c
+	}
+	db := &Database{Commands: []Command{mk("tar -xzf archive.tar.gz", "extract"), mk("brew install zoooom", "install"), mk("abab ab", "ab"), mk("nn", "oo")}}
+	db.BuildUniversalIndex()
+	q := []string{"ar", "oo", "ab", "tar ar", "zo oo"}[verifIntRange("query", 0, 4)]
+	o := SearchOptions{Limit: 5}
+	switch verifIntRange("entry", 0, 2) {
+	case 0:
+		_ = db.SearchWithOptions(q, o)
+	case 1:
+		_ = db.SearchWithPipelineOptions(q, o)
+	case 2:
+		_ = db.Search(q, 5)
+	}
+	verifReach("returned")
+}
